@@ -146,9 +146,12 @@ Janet janet_next_impl(Janet ds, Janet key, int is_interpreter) {
                 start = st;
             }
             const JanetKV *end = start + cap;
-            const JanetKV *kv = janet_checktype(key, JANET_NIL)
-                                ? start
-                                : janet_dict_find(start, cap, key) + 1;
+            const JanetKV *kv = start;
+            if (!janet_checktype(key, JANET_NIL)) {
+                kv = janet_dict_find(start, cap, key);
+                if (NULL == kv) break;
+                kv++;
+            }
             while (kv < end) {
                 if (!janet_checktype(kv->key, JANET_NIL)) return kv->key;
                 kv++;
